@@ -29,6 +29,8 @@ class Fuel:
         self.children = 0
         self.created = 0
         self.max_created = 60 * max_states + 20000
+        self.nodes = 0
+        self.max_nodes = 400 * max_states + 200000  # derivation-tree nodes constructed (copies included)
 
     @classmethod
     def _patch(cls) -> None:
@@ -67,6 +69,20 @@ class Fuel:
                     raise FuelExhausted("states created", f.created, f.children)
 
         ParseState.__init__ = init  # type: ignore[method-assign]
+
+        from fandango.language.tree import DerivationTree
+
+        orig_tree_init = DerivationTree.__init__
+
+        def tree_init(self: Any, *a: Any, **kw: Any) -> None:
+            orig_tree_init(self, *a, **kw)
+            f = Fuel._active
+            if f is not None:
+                f.nodes += 1
+                if f.nodes > f.max_nodes:
+                    raise FuelExhausted("tree nodes built", f.states, f.children)
+
+        DerivationTree.__init__ = tree_init  # type: ignore[method-assign]
         cls._patched = True
 
     def __enter__(self) -> "Fuel":
